@@ -33,7 +33,7 @@ Cand == Rng(Names) \cup {"zz"}
 \* ... plus every field kept, in header order and reversed (a kept list as long as the field list is where a "keep everything"
 \* short cut would sit)
 KeptLists == {<<>>, Names, Reverse(Names)}
-             \cup {s \in UNION {[1..n -> Cand] : n \in 1..2} : \A i, j \in DOMAIN s : i # j => s[i] # s[j]}
+             \cup {s \in UNION {[1..n -> Cand] : n \in 1..(IF Len(Names) >= 4 THEN 3 ELSE 2)} : \A i, j \in DOMAIN s : i # j => s[i] # s[j]}
 
 -----------------------------------------------------------------------------
 (* Requirement *)
